@@ -173,7 +173,7 @@ func (ex *Exec) havocPointerArgs(st *State, cc *ssa.CallCommon, args []Value) {
 		switch p := args[i].(type) {
 		case TV:
 			s := ex.tm.SortOf(pt.Elem())
-			key := MemKey(s)
+			key := ex.tm.MemKey(pt.Elem())
 			arr := ex.heapGet(st, key, SArray(SInt, s))
 			nv := ex.ts.Fresh("out", s)
 			ex.assumeRange(ex.ts.True(), nv, pt.Elem())
@@ -290,8 +290,78 @@ func (ex *Exec) applyContract(fr *Frame, st *State, fc *FuncContract, fn *ssa.Fu
 			if label == "" {
 				label = fmt.Sprintf("%d", i+1)
 			}
-			ex.oblige("requires@call", shortCallee(fc.Name)+":"+label, pos, nil, st, c)
+			trusted := false
+			if ex.contract != nil {
+				for _, tc := range ex.contract.TrustCalls {
+					if tc.Callee == shortCallee(fc.Name) {
+						trusted = true
+						ex.assume(st.PC, c)
+						msg := fmt.Sprintf("%s: precondition %q of %s assumed at its call sites -- %s", FuncName(ex.fn), r.Text, shortCallee(fc.Name), tc.Reason)
+						dup := false
+						for _, a := range ex.assumedClauses {
+							if a == msg {
+								dup = true
+							}
+						}
+						if !dup {
+							ex.assumedClauses = append(ex.assumedClauses, msg)
+						}
+					}
+				}
+			}
+			if trusted {
+				continue
+			}
+			// a precondition is proved where caller and callee serve a common
+			// property; elsewhere it is assumed, and the evidence says so
+			shared := []string{}
+			if ex.contract != nil {
+				for _, p := range fc.Props {
+					if hasProp(ex.contract.Props, p) {
+						shared = append(shared, p)
+					}
+				}
+			}
+			if len(shared) == 0 && len(fc.Props) > 0 {
+				ex.assume(st.PC, c)
+				msg := fmt.Sprintf("%s: precondition %q of %s (%s) assumed: the caller is not under contract for that property", FuncName(ex.fn), r.Text, shortCallee(fc.Name), strings.Join(fc.Props, ","))
+				dup := false
+				for _, a := range ex.assumedClauses {
+					if a == msg {
+						dup = true
+					}
+				}
+				if !dup {
+					ex.assumedClauses = append(ex.assumedClauses, msg)
+				}
+				continue
+			}
+			ex.oblige("requires@call", shortCallee(fc.Name)+":"+label, pos, shared, st, c)
 		}
+	}
+	// the callee panics under its panics_if conditions: a caller that claims
+	// to be panic-free must exclude them; on return they did not hold
+	if len(fc.PanicsIf) > 0 {
+		pan := ex.ts.False()
+		for _, pc := range fc.PanicsIf {
+			c, err := ctx.evalBool(pc.Expr)
+			if err != nil {
+				ex.contractProblem("%s: panics_if of %s: %v", pc.Pos, fc.Name, err)
+				continue
+			}
+			pan = ex.ts.Or(pan, c)
+		}
+		if ex.full && fr.top && ex.contract != nil && (ex.contract.Safety["nopanic"] || len(ex.contract.PanicsIf) > 0) {
+			allowed := ex.ts.False()
+			ectx := &EvalCtx{ex: ex, st: ex.entry, old: ex.entry, env: ex.entryEnv, pkg: ex.contract.Pkg, fnPos: ex.fn.Pos()}
+			for _, c := range ex.contract.PanicsIf {
+				if t, err := ectx.evalBool(c.Expr); err == nil {
+					allowed = ex.ts.Or(allowed, t)
+				}
+			}
+			ex.oblige("safety:panic@call", shortCallee(fc.Name), pos, nil, st, ex.ts.Or(ex.ts.Not(pan), allowed))
+		}
+		ex.assume(st.PC, ex.ts.Not(pan))
 	}
 	pre := st.Clone()
 	// frame
